@@ -193,6 +193,7 @@ func (tx *Tx) Commit() (err error) {
 	// Rebalance nodes which have had deletions.
 	var startTime = time.Now()
 	tx.root.rebalance()
+	verifYield(tx.db, "Commit.rebalanced")
 	if tx.stats.GetRebalance() > 0 {
 		tx.stats.IncRebalanceTime(time.Since(startTime))
 	}
@@ -207,6 +208,7 @@ func (tx *Tx) Commit() (err error) {
 		return err
 	}
 	tx.stats.IncSpillTime(time.Since(startTime))
+	verifYield(tx.db, "Commit.spilled")
 
 	// Free the old root bucket.
 	tx.meta.RootBucket().SetRootPage(tx.root.RootPage())
@@ -226,6 +228,8 @@ func (tx *Tx) Commit() (err error) {
 		tx.meta.SetFreelist(common.PgidNoFreelist)
 	}
 
+	verifYield(tx.db, "Commit.freelist")
+
 	// If the high water mark has moved up then attempt to grow the database.
 	if tx.meta.Pgid() > opgid {
 		_ = errors.New("")
@@ -239,6 +243,8 @@ func (tx *Tx) Commit() (err error) {
 		}
 	}
 
+	verifYield(tx.db, "Commit.grown")
+
 	// Write dirty pages to disk.
 	startTime = time.Now()
 	if err = tx.write(); err != nil {
@@ -246,6 +252,8 @@ func (tx *Tx) Commit() (err error) {
 		tx.rollback()
 		return err
 	}
+
+	verifYield(tx.db, "Commit.written")
 
 	// If strict mode is enabled then perform a consistency check.
 	if tx.db.StrictMode {
@@ -270,6 +278,7 @@ func (tx *Tx) Commit() (err error) {
 		return err
 	}
 	tx.stats.IncWriteTime(time.Since(startTime))
+	verifYield(tx.db, "Commit.metaWritten")
 
 	// Finalize the transaction.
 	tx.close()
@@ -355,6 +364,7 @@ func (tx *Tx) close() {
 		// Remove transaction ref & writer lock.
 		tx.db.rwtx = nil
 		tx.db.rwlock.Unlock()
+		verifYield(tx.db, "tx.close.unlocked")
 
 		// Merge statistics.
 		if tx.db.stats != nil {
@@ -603,6 +613,7 @@ func (tx *Tx) writeMeta() error {
 	tx.meta.Write(p)
 
 	// Write the meta page to file.
+	verifLock(tx.db, verifMetaLock, true)
 	tx.db.metalock.Lock()
 	if _, err := tx.db.ops.writeAt(buf, int64(p.Id())*int64(tx.db.pageSize)); err != nil {
 		tx.db.metalock.Unlock()
